@@ -36,11 +36,39 @@ theorem hasTys_length {env : Env} {η : Hp} : ∀ {vs : List Val} {tys : List Ty
   | v :: vs, t :: tys, h => by simp only [HasTys] at h; simp [hasTys_length h.2]
 
 /-- a callee that is not a special helper name keeps its (escaped) name in Go -/
-theorem goCallee_plain {name : String} {fty : Ty} {args : List Imm} {ty : Ty} (hsp : specialCallees.contains name = false)
-    (hrn : rn name = name) : goCallee (.var name fty) args ty = [vn name] := by
+theorem lookupTy_none_not_mem {Γ : Ctx} {x : String} (h : lookupTy Γ x = none) : (Γ.map (·.1)).contains x = false := by
+  unfold lookupTy at h
+  cases hf : Γ.find? (·.1 == x) with
+  | some p => rw [hf] at h; cases h
+  | none =>
+    rw [List.find?_eq_none] at hf
+    simp only [List.contains_eq_mem, decide_eq_false_iff_not, List.mem_map, not_exists, not_and]
+    intro p hp hpx
+    exact hf p hp (by simp [hpx])
+
+theorem lookupTy_none_nomem {Γ : Ctx} {x : String} (h : lookupTy Γ x = none) : ∀ t, ¬ (x, t) ∈ Γ := by
+  intro t hm
+  have := lookupTy_none_not_mem h
+  simp only [List.contains_eq_mem, decide_eq_false_iff_not, List.mem_map, not_exists, not_and] at this
+  exact this (x, t) hm rfl
+
+theorem lookupTy_some_mem {Γ : Ctx} {x : String} {t : Ty} (h : lookupTy Γ x = some t) : (Γ.map (·.1)).contains x = true := by
+  unfold lookupTy at h
+  cases hf : Γ.find? (·.1 == x) with
+  | none => rw [hf] at h; cases h
+  | some p =>
+    have hm := List.mem_of_find?_eq_some hf
+    have hx : p.1 = x := by simpa using List.find?_some hf
+    simp only [List.contains_eq_mem, decide_eq_true_eq, List.mem_map]
+    exact ⟨p, hm, hx⟩
+
+theorem goCallee_plain {bs : List String} {name : String} {fty : Ty} {args : List Imm} {ty : Ty} (hbs : bs.contains name = false)
+    (hsp : specialCallees.contains name = false)
+    (hrn : rn name = name) : goCallee bs (.var name fty) args ty = [vn name] := by
   simp only [specialCallees, List.contains_cons, List.contains_nil, Bool.or_false, Bool.or_eq_false_iff, beq_eq_false_iff_ne] at hsp
   obtain ⟨h1, h2, h3, h4, h5, _⟩ := hsp
-  simp [goCallee, hrn, h1, h2, h3, h4, h5]
+  have hbs' : ¬ name ∈ bs := by simpa using hbs
+  simp [goCallee, hbs', hrn, h1, h2, h3, h4, h5]
 
 theorem compileCall_frag {env : Env} {file : AFile} {G : List String} {Γ : Ctx} {name : String} {fty : Ty}
     {args : List Imm} {ty : Ty} (h : callOK env file G Γ (.var name fty) args ty = true) :
@@ -139,8 +167,8 @@ theorem argsRel_two {env : Env} {η : Hp} {vs : List Val} {gvs : List GVal} {t1 
 theorem refcall_sim {env : Env} {file : AFile} {G : List String} {P : Prog} {F : GFile} (hl : Link env file G P F) (n : Nat)
     (η : Hp) (Γ : Ctx) (ρ : Sem.Env) (w : World) (gρ : GEnv) (gw : GWorld) (Bad : List String)
     (name : String) (fty : Ty) (args : List Imm) (ty : Ty)
-    (hfrag : refCallOK env file Γ (.var name fty) args ty = true) (hrel : EnvRel env η Γ ρ gρ) (hw : WRel env η w gw)
-    (hgood : ∀ y, y ∈ keys gρ → ¬ y ∈ Bad) (hcal : ∀ x, x ∈ calleesC (.call (.var name fty) args ty) → x ∈ Bad) :
+    (hfrag : refCallOK env file G Γ (.var name fty) args ty = true) (hrel : EnvRel env η Γ ρ gρ) (hw : WRel env η w gw)
+    (hgood : ∀ y, y ∈ keys gρ → ¬ y ∈ Bad) (hfr : FnRel file G η gρ) (hcal : ∀ x, x ∈ calleesC (Γ.map (·.1)) (.call (.var name fty) args ty) → x ∈ Bad) :
     ConclV env η F (compileCExpr env (.call (.var name fty) args ty)) gρ gw ty false true w
       (Sem.eval (n + 1) P ρ w (CExpr.call (.var name fty) args ty).toExpr) := by
   simp only [refCallOK, Bool.and_eq_true, beq_iff_eq] at hfrag
@@ -150,6 +178,7 @@ theorem refcall_sim {env : Env} {file : AFile} {G : List String} {P : Prog} {F :
     | none => rfl
     | some p => rw [hx] at hloc; simp at hloc
   have hsrc : Sem.lookupEnv ρ name = none := hrel.2 name hnone
+  have hnb := lookupTy_none_nomem hnone
   simp only [CExpr.toExpr, Imm.toExpr]
   cases n with
   | zero => rw [Sem.eval]; rw [Sem.eval]; trivial
@@ -162,13 +191,13 @@ theorem refcall_sim {env : Env} {file : AFile} {G : List String} {P : Prog} {F :
     | ref e =>
       simp only [Bool.and_eq_true] at hcase
       obtain ⟨hargs, hrt⟩ := hcase
-      obtain ⟨vs, gvs, hrelA, hgA, hsA⟩ := imms_both P hl.ty hrel hargs
+      obtain ⟨vs, gvs, hrelA, hgA, hsA⟩ := imms_both P hl.ty hrel hfr hargs
       obtain ⟨v, g, rfl, rfl, hg, ht⟩ := argsRel_single hrelA
       have hshape : compileCExpr env (.call (.var "ref" fty) args (.ref e)) =
           .call (goTy (.ref e)) (.var (helperFnName "ref" (.ref e)) (.func [goTy e] (goTy (.ref e)))) (compileImms env args) := by
         simp [compileCExpr, compileCall, callee, hrn, refElem]
       rw [hshape]
-      have hbad : helperFnName "ref" (.ref e) ∈ Bad := hcal _ (by simp [calleesC, goCallee, hrn])
+      have hbad : helperFnName "ref" (.ref e) ∈ Bad := hcal _ (by simp [calleesC, goCallee, hrn, hnb])
       have hgo : lookupG gρ (helperFnName "ref" (.ref e)) = none := lookup_none_of_not_key (fun hk => hgood _ hk hbad)
       rcases hsA (n + 1) w with h2 | h2
       · rw [h2]; trivial
@@ -185,7 +214,7 @@ theorem refcall_sim {env : Env} {file : AFile} {G : List String} {P : Prog} {F :
     · subst h2
       simp only [beq_self_eq_true, if_true, Bool.and_eq_true] at hcase
       obtain ⟨hargs, hrt⟩ := hcase
-      obtain ⟨vs, gvs, hrelA, hgA, hsA⟩ := imms_both P hl.ty hrel hargs
+      obtain ⟨vs, gvs, hrelA, hgA, hsA⟩ := imms_both P hl.ty hrel hfr hargs
       obtain ⟨v, g, rfl, rfl, hg, ht⟩ := argsRel_single hrelA
       -- the argument's annotated type is the reference type
       have harg0 : (args.head?.map Imm.ty).getD (.tvar 0) = .ref ty := by
@@ -198,7 +227,7 @@ theorem refcall_sim {env : Env} {file : AFile} {G : List String} {P : Prog} {F :
           .call (goTy ty) (.var (helperFnName "ref_get" (.ref ty)) (.func [goTy (.ref ty)] (goTy ty))) (compileImms env args) := by
         simp [compileCExpr, compileCall, callee, hrn, harg0, refElem]
       rw [hshape]
-      have hbad : helperFnName "ref_get" (.ref ty) ∈ Bad := hcal _ (by simp [calleesC, goCallee, hrn, harg0])
+      have hbad : helperFnName "ref_get" (.ref ty) ∈ Bad := hcal _ (by simp [calleesC, goCallee, hrn, harg0, hnb])
       have hgo : lookupG gρ (helperFnName "ref_get" (.ref ty)) = none := lookup_none_of_not_key (fun hk => hgood _ hk hbad)
       rcases hsA (n + 1) w with h3 | h3
       · rw [h3]; trivial
@@ -229,14 +258,14 @@ theorem refcall_sim {env : Env} {file : AFile} {G : List String} {P : Prog} {F :
             rw [hrty] at hcase; simp only [Bool.and_eq_true] at hcase
             obtain ⟨⟨hargs, htu⟩, hrt⟩ := hcase
             have htu' := scalarEq_eq htu; subst htu'
-            obtain ⟨vs, gvs, hrelA, hgA, hsA⟩ := imms_both P hl.ty hrel hargs
+            obtain ⟨vs, gvs, hrelA, hgA, hsA⟩ := imms_both P hl.ty hrel hfr hargs
             obtain ⟨v1, v2, g1, g2, rfl, rfl, hg1, ht1, hg2, ht2⟩ := argsRel_two hrelA
             have hshape : compileCExpr env (.call (.var "ref_set" fty) (r :: rest) .unit) =
                 .call (goTy .unit) (.var (helperFnName "ref_set" (.ref e)) (.func [goTy (.ref e), goTy e] .unit))
                   (compileImms env (r :: rest)) := by
               simp [compileCExpr, compileCall, callee, hrn, hrty, refElem]
             rw [hshape]
-            have hbad : helperFnName "ref_set" (.ref e) ∈ Bad := hcal _ (by simp [calleesC, goCallee, hrn, hrty])
+            have hbad : helperFnName "ref_set" (.ref e) ∈ Bad := hcal _ (by simp [calleesC, goCallee, hrn, hrty, hnb])
             have hgo : lookupG gρ (helperFnName "ref_set" (.ref e)) = none := lookup_none_of_not_key (fun hk => hgood _ hk hbad)
             rcases hsA (n + 1) w with h4 | h4
             · rw [h4]; trivial
@@ -286,7 +315,7 @@ theorem intV_inv {env : Env} {η : Hp} {v : Val} {g : GVal} {t : Ty} (hit : intT
   exact ⟨_, _, x, rfl, hg.symm⟩
 
 theorem arrcall_name {env : Env} {file : AFile} {Γ : Ctx} {name : String} {fty : Ty} {args : List Imm} {ty : Ty}
-    (hfrag : arrCallOK env file Γ (.var name fty) args ty = true) : rn name = name ∧ (name = "array_get" ∨ name = "array_set") := by
+    (hfrag : arrCallOK env file G Γ (.var name fty) args ty = true) : rn name = name ∧ (name = "array_get" ∨ name = "array_set") := by
   simp only [arrCallOK, Bool.and_eq_true, beq_iff_eq] at hfrag
   obtain ⟨⟨_, hrn⟩, hcase⟩ := hfrag
   refine ⟨hrn, ?_⟩
@@ -311,11 +340,16 @@ theorem arrcall_name {env : Env} {file : AFile} {Γ : Ctx} {name : String} {fty 
 
 /-- the shape of a compiled call of an array builtin -/
 theorem arrcall_shape {env : Env} {file : AFile} {Γ : Ctx} {name : String} {fty : Ty} {args : List Imm} {ty : Ty}
-    (hfrag : arrCallOK env file Γ (.var name fty) args ty = true) :
+    (hfrag : arrCallOK env file G Γ (.var name fty) args ty = true) :
     ∃ helper tys, compileCExpr env (.call (.var name fty) args ty) = .call (goTy ty) (.var helper (goTy fty)) (compileImms env args) ∧
-      calleesC (.call (.var name fty) args ty) = [helper] ∧ argsOK env Γ args tys = true := by
+      calleesC (Γ.map (·.1)) (.call (.var name fty) args ty) = [helper] ∧ argsOK env file G Γ args tys = true := by
   simp only [arrCallOK, Bool.and_eq_true, beq_iff_eq] at hfrag
   obtain ⟨⟨hloc, hrn⟩, hcase⟩ := hfrag
+  have hnone : lookupTy Γ name = none := by
+    cases hx : lookupTy Γ name with
+    | none => rfl
+    | some p => rw [hx] at hloc; simp at hloc
+  have hnb := lookupTy_none_nomem hnone
   cases args with
   | nil => cases hcase
   | cons a rest =>
@@ -331,21 +365,21 @@ theorem arrcall_shape {env : Env} {file : AFile} {Γ : Ctx} {name : String} {fty
         · subst h1
           rw [if_pos rfl] at hif; simp only [Bool.and_eq_true] at hif
           exact ⟨helperFnName "array_get" (.array len e), _,
-            by simp [compileCExpr, compileCall, callee, hrn, haty, Imm.ty_var], by simp [calleesC, goCallee, hrn, haty], hif.1⟩
+            by simp [compileCExpr, compileCall, callee, hrn, haty, Imm.ty_var], by simp [calleesC, goCallee, hrn, haty, hnb], hif.1⟩
         · rw [if_neg h1] at hif
           by_cases h2 : name = "array_set"
           · subst h2
             rw [if_pos rfl] at hif; simp only [Bool.and_eq_true] at hif
             exact ⟨helperFnName "array_set" (.array len e), _,
-              by simp [compileCExpr, compileCall, callee, hrn, haty, Imm.ty_var], by simp [calleesC, goCallee, hrn, haty], hif.1⟩
+              by simp [compileCExpr, compileCall, callee, hrn, haty, Imm.ty_var], by simp [calleesC, goCallee, hrn, haty, hnb], hif.1⟩
           · rw [if_neg h2] at hif; cases hif
       | _ => rw [haty] at hcase; cases hcase
 
 theorem arrcall_sim {env : Env} {file : AFile} {G : List String} {P : Prog} {F : GFile} (hl : Link env file G P F) (n : Nat)
     (η : Hp) (Γ : Ctx) (ρ : Sem.Env) (w : World) (gρ : GEnv) (gw : GWorld) (Bad : List String)
     (name : String) (fty : Ty) (args : List Imm) (ty : Ty)
-    (hfrag : arrCallOK env file Γ (.var name fty) args ty = true) (hrel : EnvRel env η Γ ρ gρ) (hw : WRel env η w gw)
-    (hgood : ∀ y, y ∈ keys gρ → ¬ y ∈ Bad) (hcal : ∀ x, x ∈ calleesC (.call (.var name fty) args ty) → x ∈ Bad) :
+    (hfrag : arrCallOK env file G Γ (.var name fty) args ty = true) (hrel : EnvRel env η Γ ρ gρ) (hw : WRel env η w gw)
+    (hgood : ∀ y, y ∈ keys gρ → ¬ y ∈ Bad) (hfr : FnRel file G η gρ) (hcal : ∀ x, x ∈ calleesC (Γ.map (·.1)) (.call (.var name fty) args ty) → x ∈ Bad) :
     ConclV env η F (compileCExpr env (.call (.var name fty) args ty)) gρ gw ty false true w
       (Sem.eval (n + 1) P ρ w (CExpr.call (.var name fty) args ty).toExpr) := by
   obtain ⟨helper, tys0, hshape, hcs, _⟩ := arrcall_shape hfrag
@@ -356,6 +390,7 @@ theorem arrcall_sim {env : Env} {file : AFile} {G : List String} {P : Prog} {F :
     | none => rfl
     | some p => rw [hx] at hloc; simp at hloc
   have hsrc : Sem.lookupEnv ρ name = none := hrel.2 name hnone
+  have hnb := lookupTy_none_nomem hnone
   have hbad : helper ∈ Bad := hcal _ (by rw [hcs]; exact List.mem_singleton.mpr rfl)
   have hgo : lookupG gρ helper = none := lookup_none_of_not_key (fun hk => hgood _ hk hbad)
   rw [hshape]
@@ -377,12 +412,12 @@ theorem arrcall_sim {env : Env} {file : AFile} {G : List String} {P : Prog} {F :
         obtain ⟨⟨hint, hat⟩, hif⟩ := hcase
         have hhelper : ∀ nm, name = nm → helper = helperFnName nm (.array len e) := by
           intro nm hnm; subst hnm
-          have : calleesC (.call (.var name fty) (a :: i :: rest) ty) = [helperFnName name (.array len e)] := by
+          have : calleesC (Γ.map (·.1)) (.call (.var name fty) (a :: i :: rest) ty) = [helperFnName name (.array len e)] := by
             simp only [calleesC, goCallee, hrn, List.head?_cons, Option.map_some, Option.getD_some, haty]
             by_cases h1 : name = "array_get"
-            · simp [h1]
+            · subst h1; simp [hnb]
             · by_cases h2 : name = "array_set"
-              · simp [h2]
+              · subst h2; simp [hnb]
               · rw [if_neg h1, if_neg h2] at hif; cases hif
           rw [this] at hcs; injection hcs with hcs; exact hcs.symm
         by_cases h1 : name = "array_get"
@@ -391,7 +426,7 @@ theorem arrcall_sim {env : Env} {file : AFile} {G : List String} {P : Prog} {F :
           rw [if_pos rfl] at hif; simp only [Bool.and_eq_true] at hif
           obtain ⟨hargs, hty⟩ := hif
           have hty' := scalarEq_eq hty; subst hty'
-          obtain ⟨vs, gvs, hrelA, hgA, hsA⟩ := imms_both P hl.ty hrel hargs
+          obtain ⟨vs, gvs, hrelA, hgA, hsA⟩ := imms_both P hl.ty hrel hfr hargs
           obtain ⟨va, vi, ga, gi, rfl, rfl, hga, hta, hgi, hti⟩ := argsRel_two hrelA
           obtain ⟨xs, gs, rfl, rfl, hlen1, hxs, hgs⟩ := arrayV_inv hta hga
           obtain ⟨b, s, x, rfl, rfl⟩ := intV_inv hint hti hgi
@@ -423,7 +458,7 @@ theorem arrcall_sim {env : Env} {file : AFile} {G : List String} {P : Prog} {F :
             rw [if_pos rfl] at hif; simp only [Bool.and_eq_true] at hif
             obtain ⟨hargs, hty⟩ := hif
             have hty' := scalarEq_eq hty; subst hty'
-            obtain ⟨vs, gvs, hrelA, hgA, hsA⟩ := imms_both P hl.ty hrel hargs
+            obtain ⟨vs, gvs, hrelA, hgA, hsA⟩ := imms_both P hl.ty hrel hfr hargs
             obtain ⟨va, vi, vv, ga, gi, gv, rfl, rfl, hga, hta, hgi, hti, hgv, htv⟩ := argsRel_three hrelA
             obtain ⟨xs, gs, rfl, rfl, hlen1, hxs, hgs⟩ := arrayV_inv hta hga
             obtain ⟨b, s, x, rfl, rfl⟩ := intV_inv hint hti hgi
@@ -455,11 +490,16 @@ theorem arrcall_sim {env : Env} {file : AFile} {G : List String} {P : Prog} {F :
 
 /-- the shape of a compiled call of a reference builtin: an ordinary Go call of the helper of the type -/
 theorem refcall_shape {env : Env} {file : AFile} {Γ : Ctx} {name : String} {fty : Ty} {args : List Imm} {ty : Ty}
-    (hfrag : refCallOK env file Γ (.var name fty) args ty = true) :
+    (hfrag : refCallOK env file G Γ (.var name fty) args ty = true) :
     ∃ helper hty tys, compileCExpr env (.call (.var name fty) args ty) = .call (goTy ty) (.var helper hty) (compileImms env args) ∧
-      calleesC (.call (.var name fty) args ty) = [helper] ∧ argsOK env Γ args tys = true := by
+      calleesC (Γ.map (·.1)) (.call (.var name fty) args ty) = [helper] ∧ argsOK env file G Γ args tys = true := by
   simp only [refCallOK, Bool.and_eq_true, beq_iff_eq] at hfrag
   obtain ⟨⟨hloc, hrn⟩, hcase⟩ := hfrag
+  have hnone : lookupTy Γ name = none := by
+    cases hx : lookupTy Γ name with
+    | none => rfl
+    | some p => rw [hx] at hloc; simp at hloc
+  have hnb := lookupTy_none_nomem hnone
   by_cases h1 : name = "ref"
   · subst h1
     rw [if_pos rfl] at hcase
@@ -467,7 +507,7 @@ theorem refcall_shape {env : Env} {file : AFile} {Γ : Ctx} {name : String} {fty
     | ref e =>
       simp only [Bool.and_eq_true] at hcase
       exact ⟨helperFnName "ref" (.ref e), .func [goTy e] (goTy (.ref e)), _,
-        by simp [compileCExpr, compileCall, callee, hrn, refElem], by simp [calleesC, goCallee, hrn], hcase.1⟩
+        by simp [compileCExpr, compileCall, callee, hrn, refElem], by simp [calleesC, goCallee, hrn, hnb], hcase.1⟩
     | _ => exact absurd hcase (by simp)
   · rw [if_neg h1] at hcase
     by_cases h2 : name = "ref_get"
@@ -482,7 +522,7 @@ theorem refcall_shape {env : Env} {file : AFile} {Γ : Ctx} {name : String} {fty
           simp only [argsOK, Bool.and_eq_true] at this
           simp [scalarEq_eq this.1.2]
       exact ⟨helperFnName "ref_get" (.ref ty), .func [goTy (.ref ty)] (goTy ty), _,
-        by simp [compileCExpr, compileCall, callee, hrn, harg0, refElem], by simp [calleesC, goCallee, hrn, harg0], hcase.1⟩
+        by simp [compileCExpr, compileCall, callee, hrn, harg0, refElem], by simp [calleesC, goCallee, hrn, harg0, hnb], hcase.1⟩
     · rw [if_neg h2] at hcase
       by_cases h3 : name = "ref_set"
       · subst h3
@@ -496,24 +536,117 @@ theorem refcall_shape {env : Env} {file : AFile} {Γ : Ctx} {name : String} {fty
             rw [hrty] at hcase; simp only [Bool.and_eq_true] at hcase
             exact ⟨helperFnName "ref_set" (.ref e), .func [goTy (.ref e), goTy e] .unit, _,
               by simp [compileCExpr, compileCall, callee, hrn, hrty, refElem, scalarEq_eq hcase.1.2],
-              by simp [calleesC, goCallee, hrn, hrty], hcase.1.1⟩
+              by simp [calleesC, goCallee, hrn, hrty, hnb], hcase.1.1⟩
           | _ => rw [hrty] at hcase; cases hcase
       · rw [if_neg h3] at hcase; cases hcase
 
+/-- the entries of the function table: functions of `G` under their own Go name, and the printing builtins -/
+theorem fnSigs_spec {file : AFile} {G : List String} {name : String} {ps : List Ty} {r : Ty}
+    (h : (name, ps, r) ∈ fnSigs file G) :
+    (∃ g, g ∈ file ∧ g.name = name ∧ g.name ∈ G ∧ isEntry name = false ∧ rn name = name ∧ ps = g.params.map (·.2) ∧ r = g.ret) ∨
+    (name ∈ builtinNames ∧ builtinSig name = some (ps, r)) := by
+  simp only [fnSigs, List.mem_append, List.mem_map, List.mem_filter, List.mem_filterMap] at h
+  rcases h with ⟨g, ⟨hg, hc⟩, he⟩ | ⟨b, hb, he⟩
+  · simp only [Bool.and_eq_true, Bool.not_eq_true', beq_iff_eq, List.contains_eq_mem, decide_eq_true_eq] at hc
+    obtain ⟨⟨hG, hent⟩, hrn⟩ := hc
+    injection he with h1 h2; injection h2 with h2 h3
+    subst h1
+    exact Or.inl ⟨g, hg, rfl, hG, hent, hrn, h2.symm, h3.symm⟩
+  · cases hs : builtinSig b with
+    | none => rw [hs] at he; cases he
+    | some sg =>
+      rw [hs] at he; simp only [Option.map_some, Option.some.injEq, Prod.mk.injEq] at he
+      obtain ⟨h1, h2, h3⟩ := he
+      subst h1
+      exact Or.inr ⟨hb, by rw [hs, ← h2, ← h3]⟩
+
+/-- the shape of a compiled call through a local of function type -/
+theorem compileCall_local {env : Env} {x : String} {fty : Ty} {args : List Imm} {ty : Ty}
+    (hsp : specialCallees.contains (rn x) = false) (hext : env.getExternFn (rn x) = none) :
+    compileCall env (.var x fty) args ty = .call (goTy ty) (.var (vn x) (goTy fty)) (compileImms env args) := by
+  simp only [specialCallees, List.contains_cons, List.contains_nil, Bool.or_false, Bool.or_eq_false_iff, beq_eq_false_iff_ne] at hsp
+  obtain ⟨h1, h2, h3, h4, h5, h6, h7, h8, h9, _⟩ := hsp
+  simp only [compileCall, callee]
+  simp [h1, h2, h3, h4, h5, h6, h7, h8, h9, hext, compileImm]
+
+/-- a call through a local that holds a function value: the value names a function of the table, which is one of `G`
+    (`SimU`) or a printing builtin (`SimB`) -/
+theorem localcall_sim {env : Env} {file : AFile} {G : List String} {P : Prog} {F : GFile} (hl : Link env file G P F) {n : Nat}
+    (hu : SimU env file G P F n) (hb : SimB env P F n)
+    (η : Hp) (Γ : Ctx) (ρ : Sem.Env) (w : World) (gρ : GEnv) (gw : GWorld)
+    (x : String) (fty : Ty) (args : List Imm) (ty : Ty)
+    (hfrag : localCallOK env file G Γ (.var x fty) args ty = true) (hrel : EnvRel env η Γ ρ gρ) (hw : WRel env η w gw)
+    (hfr : FnRel file G η gρ) :
+    ConclV env η F (compileCExpr env (.call (.var x fty) args ty)) gρ gw ty false true w
+      (Sem.eval (n + 1) P ρ w (CExpr.call (.var x fty) args ty).toExpr) := by
+  simp only [localCallOK] at hfrag
+  cases hlk : lookupTy Γ x with
+  | none => rw [hlk] at hfrag; cases hfrag
+  | some t =>
+    rw [hlk] at hfrag
+    cases t <;> simp only at hfrag <;> try (cases hfrag; done)
+    rename_i ps r
+    simp only [Bool.and_eq_true, Bool.not_eq_true'] at hfrag
+    obtain ⟨⟨⟨⟨hft, hsp⟩, hext⟩, hargs⟩, hty⟩ := hfrag
+    have hft' := scalarEq_eq hft; subst hft'
+    have hty' := scalarEq_eq hty; subst hty'
+    have hext' : env.getExternFn (rn x) = none := by
+      cases hx : env.getExternFn (rn x) with
+      | none => rfl
+      | some p => rw [hx] at hext; simp at hext
+    obtain ⟨v, gv, hsv, hgv, htg, hht⟩ := hrel.1 x _ hlk
+    cases v <;> simp only [HasTy] at hht <;> try exact hht.elim
+    rename_i name
+    have hmem : (name, ps, ty) ∈ fnSigs file G := by rw [← hfr.eq]; exact List.mem_of_find?_eq_some hht
+    have hgv' : gv = .func (vn name) := by simp [toGV] at htg; exact htg.symm
+    subst hgv'
+    simp only [CExpr.toExpr, compileCExpr, Imm.toExpr, compileCall_local hsp hext']
+    rw [Sem.eval]
+    cases n with
+    | zero => rw [Sem.eval]; trivial
+    | succ n =>
+      rw [Sem.eval]; simp only [hsv]
+      obtain ⟨vs, gvs, hrelA, hgA, hsA⟩ := imms_both P hl.ty hrel hfr hargs
+      rcases hsA (n + 1) w with h2 | h2
+      · rw [h2]; trivial
+      · rw [h2]; simp only
+        have hcallr : ConclCall env η F (vn name) gvs gw ty (Sem.apply (n + 1) P w (.fn name) vs) := by
+          rcases fnSigs_spec hmem with ⟨g, hg, hgn, hG, hent, hrn, hps, hr⟩ | ⟨hbn, hsig⟩
+          · have hc := hu g hg hG η vs gvs w gw hfr.eq (by rw [← hps]; exact hrelA) hw
+            have hfn : fnName name = vn name := by
+              simp only [fnName, hent, Bool.false_eq_true, if_false]
+              unfold vn; rw [hrn]
+            rw [hgn, hfn, ← hr] at hc; exact hc
+          · have hc := hb name ps ty hbn hsig η vs gvs w gw hrelA hw
+            rw [vn_builtin hbn]; exact hc
+        revert hcallr
+        cases hap : Sem.apply (n + 1) P w (.fn name) vs with
+        | ok v w' =>
+          rintro ⟨η1, hle1, gv, gw', hc, h3, h4, h5⟩
+          exact ⟨η1, hle1, gv, gw', ev_call (ev_var_some hgv) (hgA gw) hc, h3, h4, h5, fun h => by cases h⟩
+        | fail fl w' =>
+          cases fl with
+          | panic k =>
+            rintro ⟨η1, hle1, gw', hc, h5⟩
+            exact ⟨η1, hle1, gw', ev_call (ev_var_some hgv) (hgA gw) hc, h5, rfl⟩
+          | fuel => intro _; trivial
+          | stuck s => intro _; trivial
+
 theorem stepV {env : Env} {file : AFile} {G : List String} {P : Prog} {F : GFile} (hl : Link env file G P F) {n : Nat}
     (hu : SimU env file G P F n) (hb : SimB env P F n) : SimV env file G P F (n + 1) := by
-  intro c η Γ K ρ w gρ gw Bad hctl hfrag hrel hkrel hw hgood hcal
+  intro c η Γ K ρ w gρ gw Bad hctl hfrag hrel hkrel hw hgood hfc hcal
+  have hfr := hfc.rel hgood
   cases c with
   | imm i =>
     simp only [fragC] at hfrag
-    obtain ⟨v, gv, hs, hg, h3, h4⟩ := imm_both P hl.ty hfrag hrel
+    obtain ⟨v, gv, hs, hg, h3, h4⟩ := imm_both P hl.ty hfrag hrel hfr
     simp only [CExpr.toExpr, compileCExpr, CExpr.annTy]
     rw [hs n w]
     exact ⟨η, η.le_refl, gv, gw, hg gw, h3, h4, hw, fun _ => ⟨rfl, rfl⟩⟩
   | un op e ty =>
     simp only [fragC, Bool.and_eq_true] at hfrag
     obtain ⟨he, hop⟩ := hfrag
-    obtain ⟨v, gv, hs, hg, h3, h4⟩ := imm_both P hl.ty he hrel
+    obtain ⟨v, gv, hs, hg, h3, h4⟩ := imm_both P hl.ty he hrel hfr
     simp only [CExpr.toExpr, compileCExpr, CExpr.annTy]
     rw [Sem.eval]
     rcases sem_imm_any hs (w := w) n with h1 | h1
@@ -540,8 +673,8 @@ theorem stepV {env : Env} {file : AFile} {G : List String} {P : Prog} {F : GFile
   | bin op l r ty =>
     simp only [fragC, Bool.and_eq_true] at hfrag
     obtain ⟨⟨hl', hr'⟩, hop⟩ := hfrag
-    obtain ⟨a, ga, hsa, hga, h3a, h4a⟩ := imm_both P hl.ty hl' hrel
-    obtain ⟨b, gb, hsb, hgb, h3b, h4b⟩ := imm_both P hl.ty hr' hrel
+    obtain ⟨a, ga, hsa, hga, h3a, h4a⟩ := imm_both P hl.ty hl' hrel hfr
+    obtain ⟨b, gb, hsb, hgb, h3b, h4b⟩ := imm_both P hl.ty hr' hrel hfr
     have htl : l.ty = r.ty := by
       simp only [binOK, Bool.and_eq_true] at hop; exact scalarEq_eq hop.1.1
     rw [← htl] at h4b hop
@@ -616,9 +749,10 @@ theorem stepV {env : Env} {file : AFile} {G : List String} {P : Prog} {F : GFile
     simp only [fragC, Bool.or_eq_true] at hfrag
     cases f with
     | var name fty =>
-      rcases hfrag with (hfrag | hfrag) | hfrag
-      case inl.inr => exact refcall_sim hl n η Γ ρ w gρ gw Bad name fty args ty hfrag hrel hw hgood hcal
-      case inr => exact arrcall_sim hl n η Γ ρ w gρ gw Bad name fty args ty hfrag hrel hw hgood hcal
+      rcases hfrag with ((hfrag | hfrag) | hfrag) | hfrag
+      case inl.inl.inr => exact refcall_sim hl n η Γ ρ w gρ gw Bad name fty args ty hfrag hrel hw hgood hfr hcal
+      case inl.inr => exact arrcall_sim hl n η Γ ρ w gρ gw Bad name fty args ty hfrag hrel hw hgood hfr hcal
+      case inr => exact localcall_sim hl hu hb η Γ ρ w gρ gw name fty args ty hfrag hrel hw hfr
       have hshape := compileCall_frag hfrag
       simp only [CExpr.toExpr, compileCExpr, CExpr.annTy, Imm.toExpr, hshape]
       simp only [callOK, Bool.and_eq_true, Bool.not_eq_true', beq_iff_eq] at hfrag
@@ -628,7 +762,7 @@ theorem stepV {env : Env} {file : AFile} {G : List String} {P : Prog} {F : GFile
         | none => rfl
         | some p => rw [hx] at hloc; simp at hloc
       have hsrc : Sem.lookupEnv ρ name = none := hrel.2 name hnone
-      have hbad : vn name ∈ Bad := hcal (vn name) (by simp [calleesC, goCallee_plain hsp hrn])
+      have hbad : vn name ∈ Bad := hcal (vn name) (by simp [calleesC, goCallee_plain (lookupTy_none_not_mem hnone) hsp hrn])
       have hgo : lookupG gρ (vn name) = none := lookup_none_of_not_key (fun hk => hgood _ hk hbad)
       rw [Sem.eval]
       cases n with
@@ -642,7 +776,7 @@ theorem stepV {env : Env} {file : AFile} {G : List String} {P : Prog} {F : GFile
           obtain ⟨⟨hbn, hargs⟩, hty⟩ := hcase
           have hbn' : name ∈ builtinNames := by simpa using hbn
           have hty' := scalarEq_eq hty; subst hty'
-          obtain ⟨vs, gvs, hrelA, hgA, hsA⟩ := imms_both P hl.ty hrel hargs
+          obtain ⟨vs, gvs, hrelA, hgA, hsA⟩ := imms_both P hl.ty hrel hfr hargs
           rcases hsA (n + 1) w with h2 | h2
           · rw [h2]; trivial
           · rw [h2]; simp only
@@ -672,11 +806,11 @@ theorem stepV {env : Env} {file : AFile} {G : List String} {P : Prog} {F : GFile
               have := List.find?_some hfind; simpa using this
             have hG' : g.name ∈ G := by rw [hgname]; simpa using hG
             have hty' := scalarEq_eq hty; subst hty'
-            obtain ⟨vs, gvs, hrelA, hgA, hsA⟩ := imms_both P hl.ty hrel hargs
+            obtain ⟨vs, gvs, hrelA, hgA, hsA⟩ := imms_both P hl.ty hrel hfr hargs
             rcases hsA (n + 1) w with h2 | h2
             · rw [h2]; trivial
             · rw [h2]; simp only
-              have hcallr := hu g hgmem hG' η vs gvs w gw hrelA hw
+              have hcallr := hu g hgmem hG' η vs gvs w gw hfc.eq hrelA hw
               have hfn : fnName name = vn name := by
                 have hne : isEntry name = false := by simpa using hentry
                 simp only [fnName, hne, Bool.false_eq_true, if_false]
@@ -694,8 +828,8 @@ theorem stepV {env : Env} {file : AFile} {G : List String} {P : Prog} {F : GFile
                   exact ⟨η1, hle1, gw', ev_call (ev_var_none hgo) (hgA gw) hc, h5, rfl⟩
                 | fuel => intro _; trivial
                 | stuck s => intro _; trivial
-    | prim p t => simp [callOK, refCallOK, arrCallOK] at hfrag
-    | tag i t => simp [callOK, refCallOK, arrCallOK] at hfrag
+    | prim p t => simp [callOK, refCallOK, arrCallOK, localCallOK] at hfrag
+    | tag i t => simp [callOK, refCallOK, arrCallOK, localCallOK] at hfrag
   | ite c t e ty => simp [isCtl] at hctl
   | «while» c b ty => simp [isCtl] at hctl
   | matchE s arms d ty => simp [isCtl] at hctl
@@ -712,7 +846,7 @@ theorem stepV {env : Env} {file : AFile} {G : List String} {P : Prog} {F : GFile
         rw [hv] at hcase; simp only at hcase
         obtain ⟨hE, hn, d, hd, hvar⟩ := variantOf_spec hv
         injection hE with hE; subst hE
-        obtain ⟨vs, gvs, hrelA, hgF, hsA⟩ := tfields_both P hl.ty hrel 0 hcase
+        obtain ⟨vs, gvs, hrelA, hgF, hsA⟩ := tfields_both P hl.ty hrel hfr 0 hcase
         obtain ⟨hval, hT⟩ := enum_value hn hd hvar hrelA
         obtain ⟨_, _, _, hlen⟩ := toGVs_of_args hrelA
         have hvt : variantTy env (.enum tn) vi = .name (variantGoName env tn vname) := by
@@ -734,7 +868,7 @@ theorem stepV {env : Env} {file : AFile} {G : List String} {P : Prog} {F : GFile
       | none => rw [hd] at hcase; simp at hcase
       | some d =>
         rw [hd] at hcase; simp only at hcase
-        obtain ⟨vs, gvs, hrelA, hgF, hsA⟩ := fields_both P hl.ty hrel hcase
+        obtain ⟨vs, gvs, hrelA, hgF, hsA⟩ := fields_both P hl.ty hrel hfr hcase
         obtain ⟨hv, hT⟩ := struct_value hl.ty.closed hsn hd hrelA
         obtain ⟨_, _, _, hlen⟩ := toGVs_of_args hrelA
         simp only [CExpr.toExpr, compileCExpr, CExpr.annTy, hd, Option.map_some, Option.getD_some]
@@ -753,7 +887,7 @@ theorem stepV {env : Env} {file : AFile} {G : List String} {P : Prog} {F : GFile
     | tuple ts =>
       simp only [Bool.and_eq_true] at hfrag
       obtain ⟨hargs, htt⟩ := hfrag
-      obtain ⟨vs, gvs, hrelA, hgF, hsA⟩ := tfields_both P hl.ty hrel 0 hargs
+      obtain ⟨vs, gvs, hrelA, hgF, hsA⟩ := tfields_both P hl.ty hrel hfr 0 hargs
       obtain ⟨h1, h2, _, hlen⟩ := toGVs_of_args hrelA
       have hts := tysOfVals_hasTys vs ts h2
       have hshape : compileCExpr env (.tuple items (.tuple ts)) =
@@ -776,7 +910,7 @@ theorem stepV {env : Env} {file : AFile} {G : List String} {P : Prog} {F : GFile
     | array len e =>
       simp only [Bool.and_eq_true] at hfrag
       obtain ⟨hargs, hval⟩ := hfrag
-      obtain ⟨vs, gvs, hrelA, hgA, hsA⟩ := imms_both P hl.ty hrel hargs
+      obtain ⟨vs, gvs, hrelA, hgA, hsA⟩ := imms_both P hl.ty hrel hfr hargs
       obtain ⟨h1, h2, _, _⟩ := toGVs_of_args hrelA
       have hlen1 : 1 ≤ len := by
         simp only [valTy, valTyS, Bool.and_eq_true, decide_eq_true_eq] at hval; exact hval.1.1
@@ -801,7 +935,7 @@ theorem stepV {env : Env} {file : AFile} {G : List String} {P : Prog} {F : GFile
         simp only [beq_iff_eq] at hK
         have hety' : xty = .enum tn := scalarEq_eq hety
         subst hety'
-        obtain ⟨v, gv, hs, hg, h3, h4⟩ := imm_both P hl.ty he hrel
+        obtain ⟨v, gv, hs, hg, h3, h4⟩ := imm_both P hl.ty he hrel hfr
         obtain ⟨en, vs, hlk⟩ := hkrel x vi hK
         have hv0 := hs 0 w
         simp only [Imm.toExpr] at hv0
@@ -855,7 +989,7 @@ theorem stepV {env : Env} {file : AFile} {G : List String} {P : Prog} {F : GFile
       simp only [fragC, Bool.and_eq_true] at hfrag
       obtain ⟨⟨he, hety⟩, hcase⟩ := hfrag
       have hety' := scalarEq_eq hety
-      obtain ⟨v, gv, hs, hg, h3, h4⟩ := imm_both P hl.ty he hrel
+      obtain ⟨v, gv, hs, hg, h3, h4⟩ := imm_both P hl.ty he hrel hfr
       rw [hety'] at h4
       -- the value is a struct value of an admitted struct
       cases v <;> simp only [HasTy] at h4 <;> try exact h4.elim
@@ -891,7 +1025,7 @@ theorem stepV {env : Env} {file : AFile} {G : List String} {P : Prog} {F : GFile
   | proj e idx ty =>
     simp only [fragC, Bool.and_eq_true] at hfrag
     obtain ⟨he, hcase⟩ := hfrag
-    obtain ⟨v, gv, hs, hg, h3, h4⟩ := imm_both P hl.ty he hrel
+    obtain ⟨v, gv, hs, hg, h3, h4⟩ := imm_both P hl.ty he hrel hfr
     cases hety : e.ty with
     | tuple ts =>
       rw [hety] at hcase h4; simp only [Bool.and_eq_true] at hcase
